@@ -127,6 +127,8 @@ def snapshot(names):
 
 def bounded(tier, seed):
     from . import sim
+    import cpppo
+    cpppo_dd = cpppo.dotdict
     rng = random.Random(seed)
     ev = 0
     distinct = set()
@@ -293,6 +295,45 @@ def bounded(tier, seed):
         if not ok and len(violations) < 8:
             violations.append(dict(key='wire: %s of A[4294967295] with a byte offset' % svc, observed=repr(obs)[:300],
                                    required='refused with a CIP error status, nothing read or written, the tag keeps [1, 2, 3, 4]'))
+    # strings: every length a Short String can carry on the wire (0..255); an acknowledged write leaves the tag readable by every read service
+    for wiremode in (True, False):
+        sim.WIRE = wiremode
+        lx = sim.fresh({'S': ('SSTRING', 3, {'segment': [{'class': 0x93}, {'instance': 4}, {'attribute': 1}]}), 'N': ('INT', 2)}, max_bytes=rng.choice([300, 488]))
+        smodel = ['', '', '']
+        lengths = [0, 1, 2, 81, 82, 83, 127, 128, 253, 254, 255] if tier == 'quick' else list(range(0, 256))
+        for L in lengths:
+            if len(violations) >= 8:
+                break
+            ev += 1
+            distinct.add(('sstring', wiremode, L))
+            idx = L % 3
+            text = ''.join(chr(32 + (L + k) % 200) for k in range(L))
+            d = sim.write_tag(lx, 'S', idx, 1, 0xda, [text])
+            st, ext = sim.status_of(d)
+            if st == 0:
+                smodel[idx] = text
+            problems = []
+            if st != 0 and [x if isinstance(x, str) else x.get('string', x) for x in sim.tag_values('S')] != smodel:
+                problems.append('refused write (status 0x%x) changed the tag' % st)
+            for label, rd in (('Read Tag', lambda: sim.read_tag(lx, 'S', idx, 1)), ('Read Tag Fragmented', lambda: sim.read_frag(lx, 'S', idx, 1, 0)),
+                              ('Read Tag of another tag', lambda: sim.read_tag(lx, 'N', 0, 2))):
+                r = rd()
+                rst, _ = sim.status_of(r)
+                ctx = 'read_frag' if 'Fragmented' in label else 'read_tag'
+                if rst not in (0, 6):
+                    problems.append('%s afterwards: status %r %s' % (label, rst, r.get('raised', r.get('unparsable', ''))))
+                elif 'another' not in label and list(r[ctx].data) != [smodel[idx]]:
+                    problems.append('%s afterwards returns %r' % (label, [x[:12] for x in r[ctx].data]))
+            g = sim.request(lx, service=0x0e, path={'segment': [cpppo_dd({'class': 0x93}), cpppo_dd({'instance': 4}), cpppo_dd({'attribute': 1})]})
+            want_raw = list(b''.join(bytes([len(x)]) + x.encode('iso-8859-1') for x in smodel))
+            if g.status != 0 or list(g.get('get_attribute_single.data', [])) != want_raw:
+                problems.append('Get Attribute Single afterwards: status %r, %d octets (expected %d)' % (g.status, len(g.get('get_attribute_single.data', []) or []), len(want_raw)))
+            if st != 0:
+                problems.append('a %d-character Short String was refused with status 0x%x' % (L, st))
+            if problems:
+                violations.append(dict(key='Write Tag of a %d-character SSTRING (%s), then reads' % (L, 'on the wire' if wiremode else 'as a request record'), observed='; '.join(problems)[:300],
+                                       required='acknowledged, and afterwards every read service succeeds and returns the written text'))
+    sim.WIRE = False
     return dict(evaluations=ev, distinct_nontrivial=len(distinct), distinct_keys=distinct_keys(distinct),
                 rule='seeded request histories per tag type on two array tags (every other request as bytes through the real parser where it has a wire form): index in {0,1,len-1,len,len+1,random}, count in '
                      '{0,1,2,rest,rest+1,len,len+1}, every request type incl. widest values into narrower tags; after each request all '
